@@ -341,3 +341,13 @@ fn test_elsewhere_declared_value_in_module() {
         }
     );
 }
+
+/// Verification hook (feature `verif-hooks`): the constraint parser.
+#[cfg(feature = "verif-hooks")]
+pub(crate) fn verif_constraints<'a>() -> impl nom::Parser<
+    crate::input::Input<'a>,
+    Output = Vec<crate::intermediate::constraints::Constraint>,
+    Error = error::ErrorTree<'a>,
+> {
+    constraint::constraints
+}
